@@ -109,7 +109,7 @@ def transient_limit(case, substep):
     ct = copy.deepcopy(case)
     ct.steady = False
     tau = case.t ** 2 / float(case.mat_a[0])
-    ct.times = np.array([0.0, 50 * tau, 400 * tau, 3200 * tau])
+    ct.times = np.array([0.0, 50 * tau, 3200 * tau, 1e7 * tau, 1e11 * tau])
     for name in ("inner_data", "outer_data"):
         d = getattr(ct, name)
         kind = ct.inner if name.startswith("inner") else ct.outer
